@@ -55,12 +55,50 @@ def docs(tier):
     for n in range(b['nodes'] + 1, b['big'] + 1):
         for sh in D.shapes(n, b['depth']):
             yield sh, n, 'compact', False
+    # value-less statements (`@include x;`) among the declarations: match() for every position that no statement contains
+    for n in range(1, b['nodes'] + 1):
+        for sh in D.shapes(n, b['depth']):
+            if any_decl(sh) and no_comment(sh):
+                for rot in range(len(STMT_DECLS)):
+                    yield sh, rot, 'compact', 'stmt'
     small = [t for n in range(1, b['pair'] + 1) for t in D.trees(n, b['depth']) if t[0] == 'R' and no_comment([t])]
     for i, a in enumerate(small):
         for j, c in enumerate(small):
             yield [a, c], (i + j) % 15, 'compact', False
             if any_decl([a]) and any_decl([c]):
                 yield [a, c], 0, 'compact', 'same'          # every declaration is `b:c;`: rule bodies repeat each other's text
+
+
+STMT_DECLS = [('b', 'c'), ('@include x', None), ('b', 'c d'), ('@extend %y', None)]
+
+
+def decls_for(paren):
+    return D.DECLS_PAREN if paren is True else [('b', 'c')] if paren == 'same' else STMT_DECLS if paren == 'stmt' else None
+
+
+def check_match_only(text, nodes, p):
+    "documents with value-less statements: only match(), and only where the innermost node is a rule or a declaration"
+    enc = D.enclosing(nodes, p)
+    if any(nodes[i]['kind'] == 'stmt' for i in enc):
+        return []
+    # a position on the boundary of a statement is left alone as well
+    if any(n['kind'] == 'stmt' and n['start'] <= p <= n['end'] for n in nodes):
+        return []
+    try:
+        m = CM.match(text, p)
+    except Exception as e:
+        return [('match:exception:%s' % type(e).__name__, str(e)[:100])]
+    if enc:
+        n = nodes[enc[0]]
+        exp = ('property', n['start'], n['end'], n['value'][0], n['value'][1]) if n['kind'] == 'decl' else \
+              ('selector', n['start'], n['end'], n['body'][0], n['body'][1])
+        if m is None:
+            return [('match:none-inside-%s:with-statements' % n['kind'], dict(expected=exp))]
+        if mtuple(m) != exp:
+            return [('match:wrong-node-or-ranges:%s:with-statements' % n['kind'], dict(expected=exp, got=mtuple(m)))]
+    elif m is not None:
+        return [('match:found-where-none-encloses:with-statements', dict(got=mtuple(m)))]
+    return []
 
 
 def no_comment(sh):
@@ -163,7 +201,7 @@ def run_shard(shard, ctx, tier):
     for idx, (sh, rot, lay, paren) in enumerate(docs(tier)):
         if idx % of != k:
             continue
-        text, nodes = D.emit(sh, rot, lay, D.DECLS_PAREN if paren is True else [('b', 'c')] if paren == 'same' else None)
+        text, nodes = D.emit(sh, rot, lay, decls_for(paren))
         ctx.states += 1
         for p in range(len(text) + 1):
             ctx.tick((text, p))
@@ -176,6 +214,10 @@ def run_shard(shard, ctx, tier):
             if D.on_boundary(nodes, p):
                 ctx.skip('balanced_inward at a node boundary')
             ctx.outcome((len(enc), nodes[enc[0]]['kind'] if enc else None))
+            if paren == 'stmt':
+                for cls, d in check_match_only(text, nodes, p):
+                    ctx.violation(cls, dict(shape=sh, rotation=rot, layout=lay, paren=paren, pos=p, text=text), d)
+                continue
             for cls, d in check_pos(text, nodes, p):
                 ctx.violation(refine(cls, text, nodes, p, d), dict(shape=sh, rotation=rot, layout=lay, paren=paren, pos=p, text=text), d)
     if text:
@@ -198,7 +240,9 @@ def _tup(sh):
 
 def check_case(case):
     pr_ = case.get('paren')
-    text, nodes = D.emit(_tup(case['shape']), case['rotation'], case['layout'], D.DECLS_PAREN if pr_ is True else [('b', 'c')] if pr_ == 'same' else None)
+    text, nodes = D.emit(_tup(case['shape']), case['rotation'], case['layout'], decls_for(pr_))
+    if pr_ == 'stmt':
+        return check_match_only(text, nodes, case['pos'])
     return [(refine(c, text, nodes, case['pos'], d), d) for c, d in check_pos(text, nodes, case['pos'])]
 
 
